@@ -335,6 +335,27 @@ def finite_rule(ck, F):
                        "hundreds of digits becomes `inf`, which LIST prints as `inf` and the lexer reads back as a variable"
                        % body.path, c.span)
     ck.floor("C14.parse::<f64> sites", n, 2)
+    # the value of every numeric literal the tokenizer produces is str::parse::<f64> of its digits: LIST prints the value with
+    # f64's Display, whose output parse::<f64> reads back to the same value (std's shortest-round-trip guarantee, trusted); a
+    # hand-rolled accumulation (mantissa * 10 + digit, divided by a scale) rounds differently, so `0.1` lists as 0.1 but
+    # `1234567.1234567` can list as a neighbouring double and drift on every reload
+    k = 0
+    for body in F.bodies.values():
+        if body.crate != "abasic_core" or "tokenizer::Tokenizer" not in body.path or "::tests" in body.path:
+            continue
+        for (b, i, pl, rv, sp) in aggregates(body, "tokenizer::Token", "NumericLiteral"):
+            k += 1
+            e = body.expr(rv["ops"][0], depth=30)
+            ps = [x for x in expr_calls(e) if x[1].endswith("<impl str>::parse")]
+            okp = bool(ps) and all(len(x) > 3 and x[3] is not None and (x[3].gargs or [""])[0] == "f64" for x in ps)
+            arith = strip_expr(e)
+            direct = okp and arith[0] in ("place", "call")      # the payload of the parse result, not arithmetic on it
+            ck.require(direct, "C14:NUMERAL:value-is-parse-f64:%s" % body.path.split("::")[-1], "finite numerals",
+                       "the literal's value is the payload of str::parse::<f64>()",
+                       "%s computes the value of a numeric literal by other means than str::parse::<f64> of its digits (%s): such a "
+                       "value need not be the double that f64's Display spelling of it parses back to, so a listing can change "
+                       "from reload to reload" % (body.path, show(e)[:80]), sp)
+    ck.floor("C14.numeric literal constructions in the tokenizer", k, 1)
 
 
 def escapes_proper(rd):
